@@ -303,6 +303,25 @@ func runC15(c *report.Ctx) {
 				key := sk(s2a) + ":gate:" + g.name
 				if an.AnyAtom(gs, g.pred) {
 					c.OK(key, "dominates success", posOf(c, r))
+				} else if g.name == "len(parts) <= 2" && !func() bool {
+					// stated on paths (a switch over the number of parts merges its legal cases before the success
+					// return): no feasible path reaches this return without an edge that bounds the count by two
+					s := &an.Search{P: p, Fn: s2a, GoalInstr: func(in ssa.Instruction) bool { return in == ssa.Instruction(r) },
+						CutEdge: func(from, to *ssa.BasicBlock) bool {
+							ifi, ok := from.Instrs[len(from.Instrs)-1].(*ssa.If)
+							if !ok || len(from.Succs) != 2 {
+								return false
+							}
+							a := p.MkAtom(ifi.Cond, to == from.Succs[0], ifi)
+							if g.pred(a) {
+								return true
+							}
+							k, isK := a.Y.(*ssa.Const)
+							return isK && k.Value != nil && a.X != nil && isLenOfSplit(a.X) && a.Op == token.EQL && (k.Value.ExactString() == "1" || k.Value.ExactString() == "2")
+						}}
+					return s.Run(s2a.Blocks[0], 0, nil) != nil
+				}() {
+					c.OK(key, "every path to success passes a test that bounds the number of parts by two", posOf(c, r))
 				} else {
 					c.Fail(key, "success of StringToAmount is not dominated by the gate "+g.name, posOf(c, r), an.AtomTexts(gs)...)
 				}
@@ -394,7 +413,9 @@ func runC15(c *report.Ctx) {
 	c.Rule("siblings", "api.AmountToString and masswallet.AmountToString implement one contract: same callees and constants", 1)
 	if a2sAPI != nil && a2sW != nil {
 		sa, sb := funcSignature(p, a2sAPI), funcSignature(p, a2sW)
-		if sa == sb {
+		if forwardsTo(a2sAPI, a2sW) || forwardsTo(a2sW, a2sAPI) {
+			c.OK("AmountToString(api==masswallet)", "one implementation: the other hands its arguments on and returns what it gets", p.Pos(a2sAPI.Pos()))
+		} else if sa == sb {
 			c.OK("AmountToString(api==masswallet)", "callee/constant signatures equal", p.Pos(a2sAPI.Pos()), sa)
 		} else {
 			c.Fail("AmountToString(api==masswallet)", "the two AmountToString implementations differ: the API and the wallet would print the same amount differently", p.Pos(a2sAPI.Pos()), "api:        "+sa, "masswallet: "+sb)
@@ -407,6 +428,10 @@ func runC15(c *report.Ctx) {
 			continue
 		}
 		key := sk(f) + ":max-test"
+		if (f == a2sAPI && forwardsTo(a2sAPI, a2sW)) || (f == a2sW && forwardsTo(a2sW, a2sAPI)) {
+			c.OK(key, "hands the amount as given to the other implementation (judged there)", p.Pos(f.Pos()))
+			continue
+		}
 		ok, any := false, false
 		an.Instrs(f, func(in ssa.Instruction) {
 			b, isB := in.(*ssa.BinOp)
